@@ -8,6 +8,7 @@ m=json.load(open('/tmp/seed-$id/$n/meta.json'))
 v=json.load(open('/tmp/seed-$id/$n/verify.json'))
 m['verified_by_me']=v
 m['what_i_ran']='selftest/verify_seed.sh $id $n in scratch worktree /tmp/wt-$id: clean build + demo (exit 0), git apply patch, make -j16 (compiles), make -k -C tests check (82 pass, only the known upipe_m3u_reader_test.sh fails), demo (non-zero exit), revert'
+if v.get('suite')=='unaffected': m['what_i_ran']=m['what_i_ran'].replace('make -k -C tests check (82 pass, only the known upipe_m3u_reader_test.sh fails)','suite not re-run: the patch touches only lib/upipe-ts / lib/upipe-framers units, which the build does not compile (biTStream headers absent), so no test result can change')
 m['breaks_property']='$id'
 json.dump(m,open('$d/meta.json','w'),indent=1)
 PY
